@@ -100,4 +100,15 @@ PROPS = {
                 "source order (<,=,>) of messages of one shard is mirrored. non-trivial = a pack was fed while another stream's pack sat in the computed-not-enqueued window (or releases were reordered) and >= 2 data packs; distinct = distinct scripts+schedule",
         "assumptions": ["resume from a persisted checkpoint is covered by the server-level checks, not here", "go-deadlock detector disabled in the harness (toolchain artefact)"],
     },
+    "C04": {
+        "pkg": "hreader", "test": "TestC04", "level": "exploration",
+        "quick": T(16, 25, timeout=900), "thorough": T(16, 800, timeout=7000),
+        "rule": "scenarios {live drop-collection, live drop-partition, collection dropped while CDC was down (Dropped/Dropping state, checkpoint time != 0), partition dropped while down} x 1..3 shards on distinct pchannels x database default/named, "
+                "a second collection sharing the first pchannel, per-shard scripts (0..2 data packs, the drop message alone or behind data in its pack, trailing data after a partition drop), AddPartition before or after the shard streams are registered, "
+                "drawn feed interleaving, StopReadCollection at a drawn point in 25% of the live cases. Oracle on GetEventChan: at most one drop request per object, exactly one iff every shard delivered the drop (and no stop), never before the last shard's "
+                "drop was handed over (logical clock), right database/collection/partition names, task attribution, a stop never yields a drop, exactly one after restart for objects dropped while down. "
+                "non-trivial = >= 2 shards and (a drop request was issued or the collection was stopped); distinct = distinct scenario+scripts+actions",
+        "assumptions": ["known finding F-C04-partition-barrier-undersized: timing checks are not applied to drop-partition cases in which AddPartition ran before the streams were registered (counted)",
+                        "a pack in flight while the collection is stopped may raise an error event; that is not a drop request"],
+    },
 }
